@@ -10,6 +10,7 @@ mod derive;
 mod format;
 mod confid;
 mod enc;
+mod fscomp;
 mod fuzz;
 mod history;
 mod integrity;
@@ -74,6 +75,7 @@ fn main() {
         "c06" => format::c06_cases(&mut rng, &tier, &mut out),
         "c16" => cli::c16_cases(&mut rng, &tier, &mut out),
         "c02" => repair::c02_cases(&mut rng, &tier, &mut out),
+        "c02-comp" => fscomp::c02_comp_cases(&mut rng, &tier, &arg(&args, "--aspect").unwrap_or_default(), &mut out),
         "c05" => repair::c05_cases(&mut rng, &tier, &mut out),
         "c05-blocks" => repair::c05_blocks_cases(&mut rng, &tier, &mut out),
         "c03" => integrity::c03_cases(&mut rng, &tier, &mut out),
